@@ -489,7 +489,15 @@ func (p *Proxy) findBackendByDialog(msg *Message) (Backend, ServerTransport, err
 
 	// no dialog for INVITE and SUBSCRIBE message because they initialize the dialog
 	if method == "INVITE" || method == "SUBSCRIBE" {
-		return nil, nil, fmt.Errorf("no dialog for request %s", method)
+		// only a request without To tag initialises a dialog: a re-INVITE or a refresh
+		// SUBSCRIBE carries both tags and belongs to the dialog it names
+		to, err := msg.GetTo()
+		if err != nil {
+			return nil, nil, err
+		}
+		if _, err = to.GetTag(); err != nil {
+			return nil, nil, fmt.Errorf("no dialog for request %s", method)
+		}
 	}
 	dialog, err := msg.GetDialog()
 
